@@ -15,6 +15,8 @@ from .model_entry import ModelEntry
 def _encode(obj):
     # Encode a model object into a bytes string
     d = obj.to_dict()
+    for key in ('dependent_variables', 'observation_transformation'):
+        d[key] = dict(sorted(d[key].items()))  # Equal mappings may list items in different orders
     for s in d['statements']['statements']:
         if s['class'] == 'CompartmentalSystem':
             # Equal systems may list their compartments in different orders: encode them by name
